@@ -23,6 +23,10 @@ CHECKS = {
             "§6 C03",
             "unbounded proof (induction over the block loop; BAT index arithmetic for every chunk ratio) + extraction + differential correspondence",
             "Modelled, not verified: cstruct (bit-fields re-probed), UUID comparison, lru_cache, AlignedStream transcription. WF: no parent, block size = whole sectors, chunk ratio > 0, BAT inside the file, payload states in {0,1,2,3,6}, present blocks inside the file."),
+    "C08": ("Lean 4 refinement theorem stream_refines_array (induction over operation lists: AlignedStream model = immutable array with cursor, for every backend satisfying BackendOK) + per-format BackendOK theorems (C03-C06 so far) + history/buffer-size independence corollaries; random operation histories on every stream class, several buffer sizes, compared op by op: real code vs Lean model vs array specification on construction truth",
+            "§6 C08",
+            "unbounded refinement proof over operation histories + differential correspondence",
+            "dissect.util.stream.AlignedStream is an external dependency, transcribed into Hv/Stream.lean (modelled, tied by correspondence). lru_cache/cached_property transparency rests on file immutability (C09). Stream classes covered so far: VDI, VHD, HDS, VHDX (VMDK, QCOW2, StorageStream are added as their models land)."),
 }
 
 NOT_YET = {
